@@ -5,6 +5,8 @@ import (
 	"flag"
 	"fmt"
 	"os"
+	"runtime/pprof"
+	"strconv"
 	"strings"
 	"time"
 
@@ -57,6 +59,8 @@ func cmdRun(args []string) {
 	trace := fs.Bool("trace", false, "trace calls")
 	solver := fs.String("solver", "z3", "z3|z3-new|cvc5")
 	countFiles := fs.Bool("count-files", false, "attribute steps to files")
+	cpuprof := fs.String("cpuprofile", "", "write cpu profile")
+	params := fs.String("params", "", "k=v,k=v harness parameters")
 	fs.Parse(args)
 	ov, err := load.Overlay(*repo, *harness)
 	if err != nil {
@@ -76,7 +80,19 @@ func cmdRun(args []string) {
 		os.Exit(2)
 	}
 	P := interp.NewProgram(l.Prog, repoPath)
-	sum := interp.Explore(P, fn, interp.Options{Workers: *workers, MaxPaths: *maxPaths, MaxSteps: *maxSteps, Trace: *trace, SolverKind: *solver, CountFiles: *countFiles})
+	if *cpuprof != "" {
+		f, _ := os.Create(*cpuprof)
+		pprof.StartCPUProfile(f)
+		defer pprof.StopCPUProfile()
+	}
+	pm := map[string]int{}
+	for _, kv := range strings.Split(*params, ",") {
+		if i := strings.Index(kv, "="); i > 0 {
+			n, _ := strconv.Atoi(kv[i+1:])
+			pm[kv[:i]] = n
+		}
+	}
+	sum := interp.Explore(P, fn, interp.Options{Workers: *workers, MaxPaths: *maxPaths, MaxSteps: *maxSteps, Trace: *trace, SolverKind: *solver, CountFiles: *countFiles, Params: pm})
 	sum.Funcs = nil
 	if len(sum.Samples) > 3 {
 		sum.Samples = sum.Samples[:3]
